@@ -42,7 +42,19 @@ def _case(draw, vacuum=False, thorough=False):
     cfg = {}
     if draw(st.integers(0, 4)) == 0:
         cfg["cGravityConstant"] = -draw(st.floats(20.0, 40.0))
-    return {"shot": spec, "R": R, "H": draw(st.sampled_from([0.25, 0.5, 0.5, 0.5, 1.0, 2.0])), "config": cfg}
+    H = draw(st.sampled_from([0.25, 0.5, 0.5, 0.5, 1.0, 2.0]))
+    if draw(st.integers(0, 9)) == 0:
+        # "every solver step size": refinement must keep converging well below the default (short ranges bound the cost)
+        H = draw(st.sampled_from([0.1, 0.06, 0.04]))
+        R = min(R, 600.0)
+        spec["winds"] = [w for w in (spec.get("winds") or []) if w[2] > 5.0] or None
+    if not vacuum and draw(st.integers(0, 7)) == 0:
+        # flights through and above the top of the troposphere: the coefficient functions are still evaluated at the
+        # projectile's altitude (the model's validity there is C08's business, not the integrator's)
+        spec["atmo"] = {"kind": "icao", "alt": draw(st.floats(34500.0, 37500.0))}
+        spec["rel"] = draw(st.floats(2.0, 25.0)) * gen.DEG
+        spec["look"] = draw(st.sampled_from([0.0, 0.0, 10.0 * gen.DEG]))
+    return {"shot": spec, "R": R, "H": H, "config": cfg}
 
 
 def _rows_at(calc, sh, R):
